@@ -506,6 +506,39 @@ func emitWideTrunc(g *tr.G) {
 			}
 		}
 	}
+	// every lead byte 0xc2..0xf4 in a valid rune (the lowest and the highest it can start)
+	for lead := 0xc2; lead <= 0xf4; lead++ {
+		var lo, hi rune
+		switch {
+		case lead < 0xe0:
+			lo = rune(lead&0x1f) << 6
+			hi = lo | 0x3f
+		case lead < 0xf0:
+			lo = rune(lead&0x0f) << 12
+			hi = lo | 0xfff
+		default:
+			lo = rune(lead&0x07) << 18
+			hi = lo | 0x3ffff
+		}
+		// 0xe0 and 0xf0 start above the overlong forms, 0xed stops below the surrogates, 0xf4 at U+10FFFF
+		first, last := rune(-1), rune(-1)
+		for c := lo; c <= hi; c++ {
+			if utf8.ValidRune(c) && string(c)[0] == byte(lead) {
+				if first < 0 {
+					first = c
+				}
+				last = c
+			}
+		}
+		for _, c := range []rune{first, last} {
+			x := string(c)
+			for _, pre := range []string{"", "a", "\u00e9"} {
+				for _, suf := range []string{"", "a", "\U0001f600"} {
+					emitTrunc(g, pre+x+suf, true, "every-lead-byte-in-a-valid-rune")
+				}
+			}
+		}
+	}
 	for v := 0; v < 256; v++ {
 		x := string([]byte{byte(v)})
 		for _, pre := range nbs[:5] {
@@ -549,12 +582,13 @@ func emitScaleMbits(g *tr.G) {
 				return " " + strconv.Itoa(off) + " " + strconv.Itoa(n) + " " + tr.Hex(memFor(off, p, 0xa5, al+pi))
 			}
 			// The model is quadratic in n, its Zero with a large constant (0.3 s at 8192 bytes).  Above
-			// 1100 bytes (quick tier): three of the patterns per (size, alignment), two above 4200,
-			// rotating; Zero once per (size, alignment) up to 2100 bytes, at 2 of the 8 alignments
+			// 1100 bytes (quick tier): the all-zero slice and two more of the patterns per (size,
+			// alignment), one more above 4200, rotating; Zero once per (size, alignment) up to 2100 bytes, at 2 of the 8 alignments
 			// around 4096 and 1 of the 8 around 8192 (rotating with the size and the seed; the
 			// thorough tier runs everything).
 			for pi := range pats {
-				if big && !g.Thorough() && ((n <= 4200 && (pi+rot)%4 != 0) || (n > 4200 && (pi+rot)%6 != 0)) {
+				// (the all-zero slice -- the whole word loop and the tail -- always; of the others ...)
+				if big && !g.Thorough() && pi > 0 && ((n <= 4200 && (pi+rot)%5 != 0) || (n > 4200 && (pi+rot)%10 != 0)) {
 					continue
 				}
 				a := args(pi)
